@@ -90,6 +90,9 @@ func (s *Countersignature) Sign(rand io.Reader, signer Signer, parent any, exter
 	if err != nil {
 		return err
 	}
+	if len(sig) == 0 {
+		return ErrEmptySignature
+	}
 
 	s.Signature = sig
 	return nil
@@ -289,6 +292,9 @@ func Countersign0(rand io.Reader, signer Signer, parent any, external []byte) ([
 	sig, err := signer.Sign(rand, toBeSigned)
 	if err != nil {
 		return nil, err
+	}
+	if len(sig) == 0 {
+		return nil, ErrEmptySignature
 	}
 	return sig, nil
 }
